@@ -1276,7 +1276,7 @@ type BindingObjectItem struct {
 func (n BindingObjectItem) String() string {
 	s := ""
 	if n.Key != nil {
-		if v, ok := n.Value.Binding.(*Var); !ok || !n.Key.IsIdent(v.Data) {
+		if v, ok := n.Value.Binding.(*Var); !ok || !n.Key.IsIdent(v.Name()) {
 			s += " " + n.Key.String() + ":"
 		}
 	}
@@ -1286,7 +1286,7 @@ func (n BindingObjectItem) String() string {
 // JS writes JavaScript to writer.
 func (n BindingObjectItem) JS(w io.Writer) {
 	if n.Key != nil {
-		if v, ok := n.Value.Binding.(*Var); !ok || !n.Key.IsIdent(v.Data) {
+		if v, ok := n.Value.Binding.(*Var); !ok || !n.Key.IsIdent(v.Name()) {
 			n.Key.JS(w)
 			w.Write([]byte(": "))
 		}
@@ -1862,7 +1862,7 @@ type Property struct {
 func (n Property) String() string {
 	s := ""
 	if n.Name != nil {
-		if v, ok := n.Value.(*Var); !ok || !n.Name.IsIdent(v.Data) {
+		if v, ok := n.Value.(*Var); !ok || !n.Name.IsIdent(v.Name()) {
 			s += n.Name.String() + ": "
 		}
 	} else if n.Spread {
@@ -1878,7 +1878,7 @@ func (n Property) String() string {
 // JS writes JavaScript to writer.
 func (n Property) JS(w io.Writer) {
 	if n.Name != nil {
-		if v, ok := n.Value.(*Var); !ok || !n.Name.IsIdent(v.Data) {
+		if v, ok := n.Value.(*Var); !ok || !n.Name.IsIdent(v.Name()) {
 			n.Name.JS(w)
 			w.Write([]byte(": "))
 		}
